@@ -34,8 +34,29 @@ pub fn run_case(ctx: &Ctx, case: u64, ev: &mut Ev) {
     cfg.allow_leaf_root = rng.chance(0.05);
     let sp = gen::spec(&mut rng, &cfg);
     let scr = rng.chance(0.6);
-    let tree = gen::build::<2>(&sp, &mut rng, scr);
+    let mut tree = gen::build::<2>(&sp, &mut rng, scr);
+    // a third of the trees carry a history: cached feasibility states (incl. kept Infeasible-flagged nodes
+    // of partial decisions) and the index holes left by an elimination
+    if rng.chance(0.35) {
+        match lib(case, "history: infeasible_elimination", || {
+            let mut t = tree.clone();
+            t.infeasible_elimination();
+            t
+        }) {
+            Ok(t) => {
+                tree = t;
+                ev.inc("trees_with_elimination_history");
+            }
+            Err(_) => {
+                ev.skip("elimination panicked while preparing the tree (C04's subject)");
+                return;
+            }
+        }
+    }
     let s = snap(&tree);
+    if s.nodes.values().any(|nd| nd.has_children() && nd.state == crate::snap::SState::Infeasible) {
+        ev.inc("trees_with_flagged_infeasible_inner_node");
+    }
     ev.evaluations += 1;
     let desc = json!({"tree": s.to_json()});
     macro_rules! fail {
